@@ -1376,7 +1376,7 @@ def make_case(rng, kind, **kw):
                 ps["name"] = f"Scaffold_{n+1}"
         return {"kind": "tagged", "input": inp, "ptx": ptx, "bpt": bpt}
     small = kw.get("small", rng.random() < 0.3)
-    inp = rand_input(rng, revp=revp, hap_names=(kind in ("hapnames", "hapuniform")), maxlen=(40 if small else 3000),
+    inp = rand_input(rng, revp=revp, hap_names=(kind in ("hapnames", "hapuniform", "primarynames")), maxlen=(40 if small else 3000),
                      zero_strand=kw.get("zero_strand", 0.0), nscaf=kw.get("nscaf", 4),
                      dup_names=(0.35 if kind == "dupnames" else 0.0), double_gaps=kw.get("double_gaps", 0.06))
     if kind == "dupnames":
@@ -1416,8 +1416,10 @@ def make_case(rng, kind, **kw):
         ptx = perturb(rng, ptx, inp)
     elif kind == "baits":
         ptx = arbitrary_baits(rng, inp)
-    elif kind in ("tagged", "tagged2", "primarymode"):
-        ptx = decorate_tags(rng, ptx, two_haps=(kind in ("tagged2", "primarymode")), primary=(kind == "primarymode"))
+    elif kind in ("tagged", "tagged2", "primarymode", "primarynames"):
+        # primarynames: Primary mode over input scaffolds named HAP2_SCAFFOLD_7 …: the unplaced scaffolds of the merged haplotypes sort BEFORE
+        # `SUPER_…` by name, so "rank before name" shows in the merged file (wave 13, C20k)
+        ptx = decorate_tags(rng, ptx, two_haps=(kind in ("tagged2", "primarymode", "primarynames")), primary=(kind in ("primarymode", "primarynames")))
     return {"kind": kind, "input": inp, "ptx": ptx, "bpt": bpt}
 
 
@@ -1632,6 +1634,18 @@ def cli_oracles(case, run, real):
             continue
         got = read_agp_file(run["files"][fn])
         want = [{"name": s["name"], "rows": [conv.strip_oids(r) for r in s["rows"]]} for s in scs]
+        if "all_haplotigs" in stem and len({s["name"] for s in scs}) < len(scs):
+            # open finding F21 (decided by C03's check, where it is listed): the merged all_haplotigs assembly can hold two scaffolds of one name,
+            # which no AGP/TPF reader can tell apart.  Here the file is compared row for row, in order, with same-named neighbours run together
+            def runs(lst):
+                out_ = []
+                for x in lst:
+                    if out_ and out_[-1]["name"] == x["name"]:
+                        out_[-1] = {"name": x["name"], "rows": out_[-1]["rows"] + x["rows"]}
+                    else:
+                        out_.append({"name": x["name"], "rows": list(x["rows"])})
+                return out_
+            got, want = runs(got), runs(want)
         if got != want:
             errs.append(f"{fn} does not contain exactly the scaffolds of its assembly")
     extra = [n for n in run["files"] if n.endswith(".agp") and n[:-4] not in merged]
